@@ -159,7 +159,7 @@ def plot_cyclepoints_array(sig, fs, peaks=None, troughs=None, rises=None, decays
 
             # Limit times and shift indices of cyclepoints (cps)
             cps = points[(points >= times[0]*fs) & (points < times[-1]*fs)]
-            cps = cps - int(times[0]*fs)
+            cps = cps - int(round(times[0]*fs))
 
             y_values.append(sig[cps])
             x_values.append(times[cps])
